@@ -1,10 +1,11 @@
 PROPS["C06"] = {
-    "bounds": "real relay()/updateConn/NewConn/HandleData/checkEOF goroutines over the TCP endpoint model; endpoint absent / healthy / accepting but never reading / absent at first and healthy after the next reconnect tick; with spooling on: 3..5 lines spooled while absent, then the endpoint returns as a black hole (unspooling fills queue and buffers), 2..3 further lines, optionally the black hole closes and 2 more lines; 2..4 lines of 1..2 symbolic bytes, connbuf 1..2, iobuf 4, optional reconnect tick between lines; all select-level schedules (run-to-block scheduling, forks over ready select cases)",
+    "bounds": "real relay()/updateConn/NewConn/HandleData/checkEOF goroutines over the TCP endpoint model; endpoint absent / healthy / accepting but never reading / absent at first and healthy after the next reconnect tick; with spooling on: 3..5 lines spooled while absent, then the endpoint returns as a black hole (unspooling fills queue and buffers), 2..3 further lines, optionally the black hole closes and 2 more lines; an address change (modDest addr=) while the old connection's writer is stuck in a socket write, then further hand-offs; 2..4 lines of 1..2 symbolic bytes, connbuf 1..2, iobuf 4, optional reconnect tick between lines; all select-level schedules (run-to-block scheduling, forks over ready select cases)",
     "outside": "wall-clock bounds and the Go scheduler's fairness (the no-stall claim is checked as: every hand-off on the unbuffered In channel completes, a stuck relay would be reported as deadlock); kernel/TCP behaviour beyond the model (dial refused, write ok/blocked/broken, read EOF on peer close); endpoint closing mid-stream without spool (transition, see C07); throttled endpoints (only the two extremes healthy/never-reading)",
     "assumptions": ["TCP endpoint model in the engine (engine/intrinsics_net.go)", "goroutines pre-empt only at blocking operations"],
     "groups": [
         {"pkg": "destination", "hdir": "destination", "native_optional": True, "specs": [spec("C06/steady", "VerifC06Steady")]},
         {"pkg": "destination", "hdir": "destination", "native_optional": True, "specs": [spec("C06/spool-then-black-hole", "VerifC06SpoolBlackhole")]},
+        {"pkg": "destination", "hdir": "destination", "native_optional": True, "specs": [spec("C06/address-change-while-old-connection-is-stalled", "VerifC05AddrUpdate")]},
         {"pkg": "destination", "hdir": "destination", "native_optional": True, "specs": [spec("C06/steady/healthy/2-lines/preemptions<=1", "VerifC06Steady", {"preemptions": "1", "endpoint": "1", "nlines": "2", "connbuf": "1"}, tier="thorough")]},
         {"pkg": "destination", "hdir": "destination", "native_optional": True, "specs": [spec("C06/steady/healthy/3-lines/preemptions<=1", "VerifC06Steady", {"preemptions": "1", "endpoint": "1", "nlines": "3", "connbuf": "1"}, tier="thorough")]},
         {"pkg": "destination", "hdir": "destination", "native_optional": True, "specs": [spec("C06/steady/healthy/2-lines/preemptions<=2", "VerifC06Steady", {"preemptions": "2", "endpoint": "1", "nlines": "2", "connbuf": "1"}, tier="thorough")]},
@@ -13,12 +14,13 @@ PROPS["C06"] = {
     ],
 }
 PROPS["C07"] = {
-    "bounds": "composed scenario on the real relay + Conn + keepSafe + Spool + DiskQueue (file-system model) + endpoint model, connection queue of 4 lines, and of 1 line with the endpoint stalling first and 3 lines following (queue full when the outage hits; thorough: queue of 1 without that restriction): 0..1 lines before the first connect, 0..2 while connected, optional flush, outage by peer close, 0..2 lines during the outage, reconnect, 0..1 lines after; thorough: keepSafe's expiry ticker firing once while connected, and two consecutive outage / recovery cycles with 0..1 lines per phase; every line = tag + 1 symbolic byte; keepSafe: histories of 1..5 Add/expiry-tick events",
+    "bounds": "composed scenario on the real relay + Conn + keepSafe + Spool + DiskQueue (file-system model) + endpoint model, connection queue of 4 lines, and of 1 line with the endpoint stalling first and 3 lines following (queue full when the outage hits; thorough: queue of 1 without that restriction), and with the lines handed off during the outage longer (15 bytes) than a whole spool segment file (12 bytes): 0..1 lines before the first connect, 0..2 while connected, optional flush, outage by peer close, 0..2 lines during the outage, reconnect, 0..1 lines after; thorough: keepSafe's expiry ticker firing once while connected, and two consecutive outage / recovery cycles with 0..1 lines per phase; every line = tag + 1 symbolic byte; keepSafe: histories of 1..5 Add/expiry-tick events",
     "outside": "the timing premise (failure detected while the lines are still within keepSafe's >=10 s window; the keepSafe expiry ticker does not fire in the composed scenario); more than two outages; all goroutine interleavings (run-to-block scheduling with forks over ready select cases only); kernel acknowledging bytes it later loses",
     "assumptions": ["TCP endpoint model and in-memory file-system model", "violations of the composed scenario are schedule-dependent and reported without native replay (structural class)"],
     "groups": [
         {"pkg": "destination", "hdir": "destination", "native_optional": True, "specs": [spec("C07/outage", "VerifC07Outage"), spec("C07/keepsafe", "VerifC07KeepSafe")]},
         {"pkg": "destination", "hdir": "destination", "native_optional": True, "specs": [spec("C07/outage/stalled-endpoint-queue-of-1-full", "VerifC07Outage", {"connbuf": "1", "maxlines": "3", "stalled": "1"})]},
+        {"pkg": "destination", "hdir": "destination", "native_optional": True, "specs": [spec("C07/outage/lines-longer-than-a-spool-segment", "VerifC07Outage", {"long-lines-during-outage": "1", "maxlines": "1"})]},
         {"pkg": "destination", "hdir": "destination", "native_optional": True, "specs": [spec("C07/outage/queue-of-1/lines<=3", "VerifC07Outage", {"connbuf": "1", "maxlines": "3"}, tier="thorough")]},
         {"pkg": "destination", "hdir": "destination", "native_optional": True, "specs": [spec("C07/outage/keepsafe-rotation", "VerifC07Outage", {"rotate": "1"}, tier="thorough")]},
         {"pkg": "destination", "hdir": "destination", "native_optional": True, "specs": [spec("C07/outage/2-outages/lines<=1", "VerifC07Outage", {"outages": "2", "maxlines": "1"}, tier="thorough")]},
